@@ -816,11 +816,16 @@ package lorawan
 //@   props C09 C10
 //@   modifies *p
 //@   ensures C09/short: len(data) < 7 ==> err != nil
+//@   ensures C10/fresh-frm: err == nil && len(data) > 8 + int(data[4] & 0x0f) ==> len(p.FRMPayload) == 1 && fresh(p.FRMPayload) && istype(p.FRMPayload[0], "*DataPayload") && fresh(as(p.FRMPayload[0], "*DataPayload").Bytes)
 
 //@ func (*FHDR).UnmarshalBinary
 //@   props C09 C10
 //@   modifies *h
 //@   ensures C09/short: len(data) < 7 ==> err != nil
+//@   ensures C01,C06/wire: err == nil ==> rev4eq(data, 0, h.DevAddr) && h.FCtrl.ADR == bit(data[4], 7) && h.FCtrl.ADRACKReq == bit(data[4], 6) && h.FCtrl.ACK == bit(data[4], 5) && h.FCtrl.ClassB == bit(data[4], 4) && h.FCtrl.FPending == bit(data[4], 4) && h.FCtrl.fOptsLen == data[4] & 0x0f && h.FCnt == uint32(le16(data[5], data[6]))
+//@   ensures C01/fopts-bytes: err == nil && len(data) > 7 ==> len(as(h.FOpts[0], "*DataPayload").Bytes) == len(data) - 7 && forall i int :: 0 <= i && i < len(data) - 7 ==> as(h.FOpts[0], "*DataPayload").Bytes[i] == data[7 + i]
+//@   ensures C01/no-fopts: err == nil && len(data) == 7 ==> h.FOpts == old(h.FOpts)
+//@   ensures C10/fresh-fopts: err == nil && len(data) > 7 ==> len(h.FOpts) == 1 && fresh(h.FOpts) && istype(h.FOpts[0], "*DataPayload") && fresh(as(h.FOpts[0], "*DataPayload")) && fresh(as(h.FOpts[0], "*DataPayload").Bytes)
 
 //@ func (*JoinAcceptPayload).UnmarshalBinary
 //@   props C09 C10
@@ -1044,3 +1049,10 @@ package lorawan
 //@   props C20
 //@   ensures range: (err == nil) == (index <= 15)
 //@   ensures value: err == nil ==> result0 == eirp_tbl(index)
+
+// C10: a decoded frame shares no memory with the buffer it was decoded from
+//@ func (*ProprietaryMACCommandPayload).UnmarshalBinary
+//@   props C09 C10
+//@   modifies *p
+//@   ensures C10/fresh: err == nil && fresh(p.Bytes) && len(p.Bytes) == len(data)
+//@   ensures C10/copy: forall i int :: 0 <= i && i < len(data) ==> p.Bytes[i] == data[i]
